@@ -148,8 +148,15 @@ def generate(rng, tier, index):
     big = tier == "thorough" and rng.random() < 0.2
     if big:
         h, w = rng.choice([(6, 6), (7, 7), (8, 8), (5, 8), (8, 5), (4, 9)])
+    vast = rng.random() < 0.004  # corridors longer than 100 cells, more than 256 blocks
+    if vast:
+        crafted = True
+        h, w = rng.choice([(12, 12), (15, 15), (17, 17), (18, 16), (2, 130), (130, 1)])
     n = h * w
-    if crafted:
+    if vast and rng.random() < 0.5:
+        target = [[[y, x]] for y in range(h) for x in range(w)]  # every cell its own block
+        rng.shuffle(target)
+    elif crafted:
         target = crafted_partition(rng, h, w)
     else:
         target = random_partition(rng, h, w, rng.randint(1, max(1, min(n, rng.choice([2, 3, 4, 6, 9, n])))))
@@ -193,6 +200,8 @@ def generate(rng, tier, index):
     steps = rng.choice([3, 8, 15, 25, 40]) if not crafted else rng.choice([2, 5, 10, 20])
     if big:
         steps = rng.choice([20, 40, 80])
+    if vast:
+        steps = rng.choice([1, 2, 3])
     sc["walk"] = [rng.randrange(10**6) for _ in range(steps)]
     # bias of the walk: prefer an update kind for stretches so that merge/split/move all occur
     sc["prefer"] = [rng.choice(["any", "merge", "split", "move"]) for _ in range(steps)]
@@ -216,7 +225,7 @@ def _is_partition_json(blocks, h, w):
 def valid(sc):
     try:
         h, w = sc["h"], sc["w"]
-        if h < 1 or w < 1 or h * w > 81:
+        if h < 1 or w < 1 or h * w > 400:
             return False
         for k in ("min_num", "max_num", "min_size", "max_size"):
             if sc[k] is not None and sc[k] < 1:
